@@ -605,6 +605,10 @@ class JSONPathEnvironment:
         if isinstance(left, str) and isinstance(right, str):
             return left < right
 
+        # A Boolean is an int in Python, but not a number in JSON.
+        if isinstance(left, bool) or isinstance(right, bool):
+            return False
+
         if isinstance(left, (int, float, Decimal)) and isinstance(
             right, (int, float, Decimal)
         ):
